@@ -37,7 +37,7 @@ func init() {
 		Real:     []string{"seehuhn.de/go/pdf Copier, Reader, Writer, filters, crypto (working tree)"},
 		Stub:     []string{"source disk image (revwriter or Writer on simdisk)", "target sink (simdisk, 5 kinds)", "crypto/rand.Reader"},
 		Quick:    core.Budget{Runs: 60000, Secs: 150},
-		Thorough: core.Budget{Runs: 3000000, Secs: 1500},
+		Thorough: core.Budget{Runs: 3000000, Secs: 900},
 		Run:      Run,
 		Corners:  corners,
 	})
